@@ -70,10 +70,11 @@ static void make_file(void) {
     symx_assume(pq_write(PATH, &S, C, rg, 1, 2, &wo, &ws) == 0);
     filelen = symx_file_get(PATH, filebuf, sizeof filebuf);
 #elif defined(VSPECIAL)
-    /* one REQUIRED INT32 column, 3 rows, one page, uncompressed.  Phase 1: the last value is symbolic, the file is written by
-       the real writer (real carquet_crc32) and the value is constrained so that the STORED page CRC equals VCRCVAL; the value
-       (unique: CRC-32 is a bijection of 4 adjacent bytes) is then read off bit by bit.  Phase 2: the file is written again with
-       that concrete value, so that the damage step below runs on a concrete file whose page checksum is the special constant. */
+    /* one REQUIRED INT32 column, 3 rows, one page, uncompressed: the page body is the 12 PLAIN bytes of the values.
+       Phase 1: the last value is symbolic and constrained so that the IEEE CRC-32 of the body (bitwise reference definition: a
+       plain bit-vector formula; carquet's table-driven CRC over 4 symbolic bytes does not finish in this engine) equals VCRCVAL;
+       the value (unique: CRC-32 is a bijection of 4 adjacent bytes) is read off bit by bit.  Phase 2: the REAL writer with the
+       real carquet_crc32 writes the file with that value; the harness then checks that the STORED checksum is the constant. */
     static pq_schema_t S; static pq_column_t C[PQ_MAXCOLS];
     memset(&S, 0, sizeof S); memset(C, 0, sizeof C);
     carquet_writer_options_t wo; carquet_writer_options_init(&wo);
@@ -82,20 +83,13 @@ static void make_file(void) {
     for (int i = 0; i < 2; i++) { int32_t v = 7 + i; memcpy(C[0].vals + 4 * i, &v, 4); }
     uint32_t last; symx_make_symbolic(&last, 4, "last_value");
     memcpy(C[0].vals + 8, &last, 4);
-    C[0].nrows = 3;
-    int rg[1] = {3};
-    symx_assume(pq_write(PATH, &S, C, rg, 1, 0, &wo, &ws) == 0);
-    filelen = symx_file_get(PATH, filebuf, sizeof filebuf);
-    {
-        ref_pq_open_opts o; memset(&o, 0, sizeof o); o.crc_hard = 0;
-        symx_assume(ref_pq_open_ex(filebuf, filelen, &o, &RF) == 0);
-        symx_assume(RF.chunk[0][0].n_pages == 1 && RF.chunk[0][0].pages[0].has_crc);
-        symx_assume(RF.chunk[0][0].pages[0].crc == (uint32_t)VCRCVAL);
-    }
+    symx_assume(ref_crc32_ieee(C[0].vals, 12) == (uint32_t)VCRCVAL);
     uint32_t conc = 0;
     for (int b = 0; b < 32; b++) if (last & (1u << b)) conc |= 1u << b;         /* one feasible side per bit */
     symx_observe_int(conc, "value giving the special crc");
     memcpy(C[0].vals + 8, &conc, 4);
+    C[0].nrows = 3;
+    int rg[1] = {3};
     symx_assume(pq_write(PATH, &S, C, rg, 1, 0, &wo, &ws) == 0);
     filelen = symx_file_get(PATH, filebuf, sizeof filebuf);
 #else
